@@ -19,6 +19,10 @@ type C20Case struct {
 	Start   int       `json:"start"`
 	Decline []int     `json:"decline"` // dfs: vertices whose callback does not descend
 	Reverse bool      `json:"reverse"`
+	// Churn: before the traversal, for each pair (a, b) a fresh vertex x is added
+	// with edges a->x and x->b and removed again. The digraph is the same one; a
+	// Remove that leaves half an edge behind shows up in the traversal (w9-C20-1).
+	Churn [][2]int `json:"churn,omitempty"`
 }
 
 type C20 struct{}
@@ -84,6 +88,11 @@ func (C20) Gen(r *simrt.RNG, tier string) core.Case {
 			}
 		}
 	}
+	if r.Chance(1, 4) { // drawn last: the graphs of earlier versions are unchanged
+		for i, n := 0, 1+r.Intn(2); i < n; i++ {
+			c.Churn = append(c.Churn, [2]int{r.Intn(c.Graph.N), r.Intn(c.Graph.N)})
+		}
+	}
 	return c
 }
 
@@ -120,6 +129,11 @@ func (C20) Shrink(c core.Case) []core.Case {
 	if cc.Reverse {
 		n := cc
 		n.Reverse = false
+		out = append(out, n)
+	}
+	for i := range cc.Churn {
+		n := cc
+		n.Churn = append(append([][2]int{}, cc.Churn[:i]...), cc.Churn[i+1:]...)
 		out = append(out, n)
 	}
 	return out
@@ -192,6 +206,17 @@ func (C20) Run(c core.Case, ctx *core.Ctx) []core.Violation {
 		sim := ctx.Begin(k)
 		sim.MaxSteps = 400000
 		g, vs := buildGraph(spec)
+		for i, ab := range cc.Churn {
+			if ab[0] >= spec.N || ab[1] >= spec.N {
+				continue
+			}
+			x := vertexOf(1, spec.N+i, 0)
+			g.Add(x)
+			g.AddEdge(vs[ab[0]], x)
+			g.AddEdge(x, vs[ab[1]])
+			g.Remove(x)
+			ctx.St.Inc("c20_churned_vertices")
+		}
 		sim.ResetOp()
 		switch cc.Mode {
 		case "dfs":
